@@ -56,7 +56,7 @@ MISPLACED = {
             '@namespace "u";', '@namespace z "v";', '@namespace z "u";', "@variables {a:1}", "@top-left {x:1}",
             "@bottom-center{margin:0}", "x:1;", "x:1; y:2;", "color:red !important;"],
     "media": ["@font-face{font-family:f}", '@import "a.css";', '@namespace p "v";', '@namespace q "u";',
-              '@namespace "v";', '@namespace z "v";', '@charset "utf-8";', "@variables{a:1}", "@top-left{x:1}", "x:1;",
+              '@namespace "v";', '@namespace z "v";', '@charset "utf-8";', "@variables{a:1}", "x:1;",
               "@import url(a.css) print;"],
     "decl": ['@import "a.css"', '@namespace p "v"', '@namespace "v"', '@namespace q "u"', '@charset "utf-8"',
              "@media all{a{x:1}}", "@font-face{font-family:f}", "b{y:2}", "@page{margin:0}", "p|b{y:2}", "@variables{a:1}"],
@@ -97,13 +97,13 @@ def misplaced_texts(case):
             pre + " " + g1 + " " + sel + "{x:1;z:3} " + g2)
 
 
-def soup(rng, depth, topfree, n=None, allow_at=True):
-    """balanced token soup as text; topfree: no ';' and no {}-group at nesting depth 0"""
+def soup(rng, depth, topfree, n=None, allow_at=True, brace_top=False):
+    """balanced token soup as text; topfree: no ';' and (unless brace_top) no {}-group at nesting depth 0"""
     out = []
     for _ in range(rng.randint(0, 4) if n is None else n):
         r = rng.random()
         if r < 0.25 and depth > 0:
-            o, c = rng.choice(OPEN if not topfree else [p for p in OPEN if p[0] != "{"])
+            o, c = rng.choice(OPEN if (not topfree or brace_top) else [p for p in OPEN if p[0] != "{"])
             if o == "url(":   # url( + soup would be tokenized as URI or bad; keep it a FUNCTION by a leading quote-less space
                 o = "f("
             out.append(o + soup(rng, depth - 1, False, allow_at=allow_at) + c)
@@ -118,6 +118,12 @@ def soup(rng, depth, topfree, n=None, allow_at=True):
     return "".join(out)
 
 
+_T = [";", " ;", " @foo x;", " q{c:d}", " x, y{z:w}", " /*c*/ s.t{u:v}", " @page :first{margin:0}", " @media print{c{top:0}}",
+      " @foo {x} y;"]
+AT_TAILS = {"@import": _T, "@namespace": _T, "@charset ": _T, "@font-face": [";", " ;", " @media print{c{top:0}}", " @foo x;"],
+            "@media": [";"], "@page": [";"], "@variables": [";", " ;", " @foo x;"]}
+
+
 def closer_for(first):
     return {"(": ")", "[": "]", "{": "}", "f(": ")", "rgb(": ")"}.get(first)
 
@@ -128,6 +134,9 @@ def junk_statement(rng, first=None):
     c = closer_for(first)
     if first == "{":
         return "{" + soup(rng, 2, False) + "}"
+    if first in AT_TAILS and rng.random() < 0.4:
+        # a known at-keyword whose remainder would, on its own, be no statement (';') or a different one
+        return first + rng.choice(AT_TAILS[first])
     head = first + ((soup(rng, 2, False) + c) if c else " ")
     if first in ("<!--", "-->"):
         head += "foo "          # CDO/CDC are skipped at top level: the statement starts with the next token
@@ -147,7 +156,8 @@ def junk_declaration(rng, first=None):
     head = first + ((soup(rng, 2, False, allow_at=False) + c) if c else " ")
     if first == "foo":
         head += "bar "          # IDENT not followed by ':' (a name of two identifiers is malformed)
-    return head + " " + soup(rng, 2, True, allow_at=False).replace("}", "").replace("{", "") + rng.choice(["", " y:2", " ! y:2"])
+    # (a {}-group at depth 0 does not end a declaration: only the next top-level ';' does)
+    return head + " " + soup(rng, 2, True, allow_at=False, brace_top=True) + rng.choice(["", " y:2", " ! y:2", " {a} y:2"])
 
 
 # ------------------------------------------------------------------ implementation side (workers)
@@ -283,9 +293,7 @@ def impl_unknown(run):
     r.cssText = list(run)
     if run and run[0][1] in css_parser.css.MarginRule.margins:
         return ("K", "", None)
-    # nested unknown rules (default ATKEYWORD production) are appended only when THEY are well-formed; the model
-    # records every nested run (UNested) and leaves its fate to a separate unknown_rule call: compare the other items
-    n = len([i for i in r.seq if not isinstance(i.value, css_parser.css.CSSUnknownRule)]) if r.wellformed else None
+    n = len(r.seq) if r.wellformed else None
     return ("K", enc_tokens(run), {"wf": bool(r.wellformed), "n": n})
 
 
@@ -322,7 +330,7 @@ def check_skel(cmd, exp, got):
         if (got != "NONE") != exp["wf"]:
             return "unknown rule well-formedness: implementation %r, model %s" % (exp["wf"], got)
         if exp["wf"]:
-            n = len([x for x in parse_items(got[3:]) if not x.startswith("n")])
+            n = len(parse_items(got[3:]))
             if n != exp["n"]:
                 return "unknown rule item count: implementation %d, model %d" % (exp["n"], n)
     return None
@@ -385,6 +393,31 @@ def _sig_tokens(text):
     return out
 
 
+def extra_node(a, b):
+    """a, b: rule trees of _model; the single node that a has in addition to b (at any depth), else None"""
+    if len(a) == len(b) + 1:
+        for i in range(len(a)):
+            if a[:i] + a[i + 1:] == b:
+                return a[i]
+        return None
+    if len(a) == len(b):
+        d = [i for i in range(len(a)) if a[i] != b[i]]
+        if len(d) == 1 and a[d[0]][0] == "media" == b[d[0]][0] and a[d[0]][1] == b[d[0]][1]:
+            return extra_node(a[d[0]][2], b[d[0]][2])
+    return None
+
+
+def kept_container(case, text_with, text_without):
+    """the only difference is one extra rule object of the kind the malformed statement starts with"""
+    first = case["junk"].lstrip().lower()
+    kinds = {"@media": ("media",), "@page": (6,), "@font-face": (5,), "@variables": (8, 1008, 10)}
+    for kw, ks in kinds.items():
+        if first.startswith(kw):
+            n = extra_node(_model(text_with)[0], _model(text_without)[0])
+            return n is not None and (n[0] in ks or (kw == "@variables" and isinstance(n[0], int) and n[0] not in (0, 1, 4, 5, 6)))
+    return False
+
+
 EMPTY_KEEPERS = ("@media", "@page", "@font-face", "@variables")
 
 
@@ -417,12 +450,7 @@ def oracle(case):
                         zip(want, [t for t in _tok(junk, False) if t[0] != "S"])]
                 ok = got == want
             if not ok:
-                what = "unknown at-rule is not preserved with its tokens intact"
-                if "\\7b" in junk.lower():
-                    what = "an escaped brace (IDENT whose value is a bracket character) is counted as a bracket"
-                elif "@" in junk[1:]:
-                    what = "unknown at-rule with a nested at-keyword is not preserved"
-                return (what, json.dumps(case, sort_keys=True))
+                return ("unknown at-rule is not preserved with its tokens intact", json.dumps(case, sort_keys=True))
             return None
         elif k == "misplaced":
             tw, to = misplaced_texts(case)
@@ -446,19 +474,17 @@ def oracle(case):
             wrap = (lambda x: pre + " " + x) if k == "top" else (lambda x: pre + " @media print{" + x + "}")
             mw, mo = _model(wrap(g1 + " " + junk + " " + g2)), _model(wrap(g1 + " " + g2))
             if mw != mo:
-                if junk.lstrip().lower().startswith(EMPTY_KEEPERS):
+                if kept_container(case, wrap(g1 + " " + junk + " " + g2), wrap(g1 + " " + g2)):
                     return ("malformed @media/@page/@font-face/@variables statement is kept as an empty rule object",
                             json.dumps(case, sort_keys=True))
                 return ("namespace bindings of the neighbours of a junk statement changed: with %r, without %r" % (mw, mo),
                         json.dumps(case, sort_keys=True))
         return None
     first = junk.lstrip().lower()
+    wrap = (lambda x: pre + " " + x) if k == "top" else (lambda x: pre + " @media print{" + x + "}")
     if k in ("top", "media") and first.startswith(EMPTY_KEEPERS) and \
-            [r for r in with_ if r not in ("", "@media all {\n    }")] == [r for r in without if r != ""]:
+            kept_container(case, wrap(g1 + " " + junk + " " + g2), wrap(g1 + " " + g2)):
         return ("malformed @media/@page/@font-face/@variables statement is kept as an empty rule object", json.dumps(case, sort_keys=True))
-    if "\\7b" in junk.lower() or "\\7d" in junk.lower():
-        return ("an escaped brace (IDENT whose value is a bracket character) is counted as a bracket",
-                json.dumps(case, sort_keys=True))
     where = {"top": "top-level", "media": "@media-level", "decl": "declaration-level"}[k]
     return ("%s junk is not skipped as a unit: with junk %r, without %r" % (where, with_, without),
             json.dumps(case, sort_keys=True))
@@ -484,8 +510,8 @@ def gen_triples(rng, n):
             cases.append({"kind": "decl", "g1": rng.choice(GOODDECL), "junk": junk_declaration(rng),
                           "g2": rng.choice(GOODDECL)})
         else:
-            body = soup(rng, 2, True, allow_at=rng.random() < 0.15)
-            end = ";" if rng.random() < 0.5 else "{" + soup(rng, 2, False, allow_at=False) + "}"
+            body = soup(rng, 2, True)
+            end = ";" if rng.random() < 0.5 else "{" + soup(rng, 2, False) + "}"
             cases.append({"kind": "unknown", "g1": rng.choice(GOOD), "junk": "@unk " + body + end, "g2": rng.choice(GOOD)})
     # token-soup junk between neighbours that use namespace prefixes
     for _ in range(n // 6):
@@ -514,6 +540,31 @@ def usable(case):
             if not depth or depth.pop() != pairs[t[1]]:
                 return False
     return not depth
+
+
+def junk_shape(junk):
+    """what must survive shrinking for the text to remain ONE malformed statement / declaration of the same class:
+    (type or value of the first token, number of depth-0 ';', number of depth-0 '}' closings, position class of the
+    last of them, a depth-0 '!' present, second token is ':')"""
+    toks = [t for t in _tok(junk, False) if t[0] not in ("S", "COMMENT")]
+    if not toks:
+        return None
+    d, semis, closes, bang, last_end = 0, 0, 0, False, -1
+    for i, t in enumerate(toks):
+        if t[0] == "FUNCTION" or (t[0] == "CHAR" and t[1] in "([{"):
+            d += 1
+        elif t[0] == "CHAR" and t[1] in ")]}":
+            d -= 1
+            if d == 0 and t[1] == "}":
+                closes += 1
+                last_end = i
+        elif d == 0 and t[0] == "CHAR" and t[1] == ";":
+            semis += 1
+            last_end = i
+        elif d == 0 and t[0] == "CHAR" and t[1] == "!":
+            bang = True
+    first = toks[0][0] if toks[0][0] != "CHAR" else toks[0][1]
+    return (first, semis, closes, last_end == len(toks) - 1, bang, len(toks) > 1 and toks[1][1] == ":")
 
 
 def run_oracle(case):
@@ -670,9 +721,11 @@ def shrink(case, what):
     from harness.lib import shrink_seq
     head = what.split(":")[0]
 
+    shape0 = junk_shape(case["junk"])
+
     def fails(j):
         c = dict(case, junk="".join(j))
-        if not usable(c):
+        if not usable(c) or junk_shape(c["junk"]) != shape0:
             return False
         r = oracle(c)
         return bool(r) and r[0].split(":")[0] == head
@@ -705,8 +758,10 @@ TRUSTED = [
 ]
 ASSUME = [
     "Print Assumptions for every theorem of props/C04.v: see coverage.print_assumptions",
-    "junk is balanced as the counters of _tokensupto2 see it: brackets are recognised by token VALUE, a FUNCTION token "
-    "opens a parenthesis; an IDENT spelled with an escape whose value is a bracket character is outside Balanced "
-    "(see open finding C04-escaped-bracket-ident)",
-    "unknown_atrule_preserved is proved for bodies without ATKEYWORD / INVALID tokens (nested at-keywords: open finding)",
+    "junk is balanced as the counters of _tokensupto2 see it: brackets are recognised by token VALUE of non-IDENT "
+    "tokens, a FUNCTION token opens a parenthesis",
+    "unknown_atrule_preserved is proved for bodies of `usane` tokens (brackets are CHAR tokens, no EOF / INVALID token)",
+    "the expected 0..3 order state and the namespace registry are outside the model: misplaced well-formed statements "
+    "(@charset/@import/@namespace/@variables out of order, at-rules inside @media, statements inside declaration "
+    "blocks) are covered by the end-to-end oracle only",
 ]
